@@ -35,8 +35,15 @@ fn fnv_of<T: Hash>(t: &T, seed: u64) -> u64 {
 }
 
 fn digest_profiles() -> Vec<Profile> {
-    // no giant sizes: without the hooks a giant request would reach the real allocator
-    vec![Profile::base(), Profile::sharing(), Profile { callback_panics: true, ..Profile::panics() }, Profile::statics()]
+    // no giant sizes between 1 MiB and 2^56: without the hooks such a request would reach the real allocator;
+    // sizes above 2^56 are rejected before any allocation and are part of the stream
+    vec![
+        Profile::base(),
+        Profile::sharing(),
+        Profile { callback_panics: true, ..Profile::panics() },
+        Profile::statics(),
+        Profile { overflow_sizes: true, w_reserve: 16, w_shrink: 8, ..Profile::sharing() },
+    ]
 }
 
 /// The i-th history of the digest stream (deterministic for a given seed).
